@@ -23,6 +23,7 @@
   the read/write rule of the FIFO.  New here: n stages, n-1 pipes, holder lists per pipe, stages that
   stop reading early.)
 -/
+import YashModel.Generated.PipeConsts
 namespace YashModel.Proc
 
 structure PCfg where
@@ -34,8 +35,10 @@ structure PCfg where
   chunk : Nat
   deriving Repr
 
-/-- the constants of the virtual system and of the harness built-ins -/
-def PCfg.real : PCfg := { cap := 1024, pbuf := 512, chunk := 1024 }
+/-- the constants of the virtual system (`PIPE_SIZE`, `PIPE_BUF` of file_body.rs, re-extracted from /repo on
+    every run into `Generated/PipeConsts.lean`) and of the harness built-ins (`cat`/`drain` read 1024 bytes) -/
+def PCfg.real : PCfg :=
+  { cap := YashModel.Generated.PipeConsts.PIPE_SIZE, pbuf := YashModel.Generated.PipeConsts.PIPE_BUF, chunk := 1024 }
 
 def PCfg.Valid (c : PCfg) : Prop := 1 ≤ c.pbuf ∧ c.pbuf ≤ c.cap ∧ 1 ≤ c.chunk
 
